@@ -6,6 +6,8 @@ from rules import facts
 from rules.mir import *
 d,h,w=facts.facts_dir('dev')
 prog=Program(facts.load_dir(d))
+from rules.normalize import normalize
+print("normalize:", normalize(prog))
 for sub in sys.argv[1:]:
     for p,b in prog.bodies.items():
         if sub in p and '__CALLSITE' not in p:
